@@ -67,8 +67,12 @@ var AddrTable = []AddrDef{
 	{"/ip4/169.254.1.1/tcp/1", false},
 	{"/dns/ipni.example.org/tcp/443/https", true},
 	{"/ip6/::/tcp/3103", false},
-	{"/ip4/192.0.2.1/tcp/1", false}, // unroutable (TEST-NET-1)
-	{"/ip4/224.0.0.1/tcp/1", false}, // multicast
+	{"/ip4/192.0.2.1/tcp/1", false},                        // unroutable (TEST-NET-1)
+	{"/ip4/224.0.0.1/tcp/1", false},                        // multicast
+	{"/ip6zone/eth0/ip6/fe80::1/tcp/1", false},             // zoned link-local
+	{"/ip6zone/lo/ip6/::1/tcp/1", false},                   // zoned loopback
+	{"/ip6zone/eth0/ip6/::/tcp/1", false},                  // zoned unspecified
+	{"/ip6zone/eth0/ip6/2001:4860:4860::8844/tcp/1", true}, // zoned public
 }
 
 var (
